@@ -133,6 +133,7 @@ type VC struct {
 	cbinvV *types.Var
 	clientinvV *types.Var
 	implFacts  map[string]bool
+	nquant     int
 	frameCache *frameSpec
 	loopWrites map[int]map[string]bool
 	lastWritten map[string]bool
